@@ -1014,6 +1014,14 @@ func (r *Resolver) checkDname(
 }
 
 func (r *Resolver) answer(ctx context.Context, req, resp *dns.Msg, parentDS []dns.RR, zone string, extra ...bool) (*dns.Msg, error) {
+	// The servers that sent resp speak for zone and nothing else. An
+	// answer record owned outside it — the target of an alias that
+	// leaves the zone, or something unrelated riding along — is not
+	// theirs to give: it is dropped here, before anything follows,
+	// validates, caches or relays it, and an alias that leaves the zone
+	// is followed by asking the target's own servers.
+	resp.Answer = dnsutil.FilterRRsToZone(resp.Answer, zone)
+
 	// The internal recursion's target response is held back until
 	// after the outer DNSSEC check. Merging target records into resp
 	// before dnssec.VerifyRRSIG() would force the validator to tolerate
